@@ -135,7 +135,7 @@ Fixpoint maven_loop (xs ys : list mvn_elem) : res (option Z) :=
 Definition maven_compare (xs ys : list mvn_elem) : res Z :=
   match maven_loop xs ys with
   | Ok (Some r) => Ok r
-  | Ok None => Ok (if Nat.ltb (length xs) (length ys) then -1 else 0)
+  | Ok None => Ok 0     (* every element, padding included, compared equal *)
   | Err e => Err e
   | Panic p => Panic p
   | OutOfFuel => OutOfFuel
